@@ -51,7 +51,7 @@ Lemma read_record_at req data e nr s :
              /\ clean s' /\ s_data s' = data /\ s_pos s' = fst e * 2 + zlen (ref_record (fst nr) (snd nr)).
 Proof.
   intros (H0 & (rest & Hs) & (Hnum & Hc & Hsz & Ha)) Hcl Hd Hp.
-  assert (Hr : s_rest s = ref_record (fst nr) (snd nr) ++ rest) by (unfold s_rest; rewrite Hd, Hp; exact Hs).
+  assert (Hr : s_rest s = ref_record (fst nr) (snd nr) ++ rest) by (rewrite s_rest_skipn, Hd, Hp; exact Hs).
   destruct (L1_record req (fst nr) (snd nr) Hnum Hc Hsz Ha s rest Hcl Hr) as (s' & Hrun & Hc' & Hd' & Hp').
   exists s'. split; [exact Hrun|]. split; [exact Hc'|]. split; [congruence|]. rewrite Hp', Hp. reflexivity.
 Qed.
